@@ -2,7 +2,8 @@
 //!
 //! ENUM part: for each small artifact with a checksum (encoding-table pages, archive-index
 //! footer, LRU checkpoint file, update-section entry/page and a saved `.idx` with pending
-//! updates, local entry header, V1 Ribbit response with a checksum line) every single-bit
+//! updates, the two hash-guarded blocks (header, sorted entries) of a saved `.idx` after a flush,
+//! local entry header, V1 Ribbit response with a checksum line) every single-bit
 //! flip, every byte substitution, every suffix/infix deletion and every 1-byte insertion
 //! inside the protected region is applied; oracle: accept(mutant) ⇒ logical(mutant) =
 //! logical(original).
@@ -205,6 +206,87 @@ fn idx_artifact() -> Option<Artifact> {
     })
 }
 
+/// System level, the other half of a saved `.idx`: after a flush the entries live in the *sorted*
+/// section. `save_index` stores one Jenkins hash next to the 16-byte header block and one next to
+/// the sorted entry block (`GuardedBlockHeader::block_hash`, "guarded blocks with Jenkins hash
+/// validation" in docs/src/client/local-storage.md) — data stored together with a checksum. One
+/// artifact per guarded block, both on the same file (four flushed entries of one bucket, no pending
+/// updates, 0x28 + 4·18 bytes). Protected region = the stored hash + the bytes it was computed
+/// over (the `block_size` words are not covered by the hashes and are left alone). Logical value =
+/// everything `iter_entries` yields plus `lookup` of the four written keys after `load_all`; by the
+/// module's oracle a mutant may drop entries but may not serve a key, location or size that was
+/// never written.
+fn idx_sorted_artifacts() -> Option<Vec<Artifact>> {
+    use cascette_client_storage::index::IndexManager;
+    use cascette_crypto::EncodingKey;
+    let sc = Scratch::new("c07");
+    // bucket 1 (XOR of the first nine bytes = 0x01): the loader prints its debug dump only for bucket 0.
+    // Four entries, so that a header whose field sizes are altered (record stride 19..=36 instead of
+    // 18) still yields a second, misaligned record.
+    let keys: Vec<[u8; 16]> = (0..4u8)
+        .map(|i| {
+            let mut k = [0u8; 16];
+            k[0] = 0x01;
+            k[1] = 0x30 + i;
+            k[2] = 0x30 + i;
+            k
+        })
+        .collect();
+    if keys.iter().any(|k| IndexManager::bucket_for_key(&EncodingKey::from_bytes(*k)) != 1) {
+        return None;
+    }
+    {
+        let mut m = IndexManager::new(&sc.path);
+        for (i, k) in keys.iter().enumerate() {
+            m.add_entry(&EncodingKey::from_bytes(*k), 3 + i as u16, 0x1000 + 0x345 * i as u32, 500 + 77 * i as u32).ok()?;
+        }
+        m.flush_all_updates().ok()?;
+    }
+    let mut files: Vec<_> = std::fs::read_dir(&sc.path).ok()?.flatten().map(|e| e.path()).filter(|p| p.extension().is_some_and(|e| e == "idx")).collect();
+    files.sort();
+    if files.len() != 1 {
+        return None;
+    }
+    let fname = files[0].file_name()?.to_string_lossy().to_string();
+    let bytes = std::fs::read(&files[0]).ok()?;
+    // [0x00] size+hash  [0x08] 16-byte header  [0x18] 8 zero bytes  [0x20] size+hash  [0x28] entries
+    const ENTRIES: usize = 0x28;
+    if bytes.len() != ENTRIES + 4 * 18 || bytes[0..4] != 16u32.to_le_bytes() || bytes[0x20..0x24] != 72u32.to_le_bytes() {
+        return None;
+    }
+    // (Which Jenkins variant fills the two hash words is deliberately not assumed here: the oracle
+    // only needs to know which bytes are guarded, and the size words above pin that down.)
+    let n = bytes.len();
+    let mk = |name: &str, regions: Vec<Range<usize>>| {
+        let fname = fname.clone();
+        let keys = keys.clone();
+        Artifact {
+            name: name.into(),
+            regions,
+            accept: Box::new(move |d| {
+                let sc = Scratch::new("c07s");
+                std::fs::write(sc.path.join(&fname), d).ok()?;
+                let mut m = IndexManager::new(&sc.path);
+                block_on(m.load_all()).ok()?;
+                let mut v: Vec<String> = m.iter_entries().map(|(b, e)| format!("bucket{b}:{}@{:?}", hex::encode(e.key), (e.archive_id(), e.archive_offset(), e.size))).collect();
+                v.sort();
+                for k in &keys {
+                    if let Some(e) = m.lookup(&EncodingKey::from_bytes(*k)) {
+                        v.push(format!("lookup({})={}@{:?}", hex::encode(&k[..9]), hex::encode(e.key), (e.archive_id(), e.archive_offset(), e.size)));
+                    }
+                }
+                Some(v)
+            }),
+            bytes: bytes.clone(),
+            full_subst: true,
+        }
+    };
+    Some(vec![
+        mk("idx-file(sorted section: guarded entry block, loaded with load_all)", vec![0x24..0x28, ENTRIES..n]),
+        mk("idx-file(sorted section: guarded header block, loaded with load_all)", vec![4..8, 8..24]),
+    ])
+}
+
 fn local_header_artifact() -> Artifact {
     use cascette_client_storage::storage::LocalHeader;
     let h = LocalHeader::new([9u8; 16], 1000, 0x40);
@@ -293,7 +375,7 @@ fn mutations(a: &Artifact, tier: Tier) -> Vec<Mutation> {
 }
 
 fn run_artifacts(rep: &Report, tier: Tier) {
-    let arts: Vec<Artifact> = vec![
+    let mut arts: Vec<Artifact> = vec![
         encoding_artifact(),
         archive_index_artifact(),
         lru_artifact(),
@@ -306,8 +388,9 @@ fn run_artifacts(rep: &Report, tier: Tier) {
     .into_iter()
     .flatten()
     .collect();
-    if arts.len() < 8 {
-        rep.machinery_error(&format!("only {} of 8 artifacts could be built", arts.len()));
+    arts.extend(idx_sorted_artifacts().unwrap_or_default());
+    if arts.len() < 10 {
+        rep.machinery_error(&format!("only {} of 10 artifacts could be built", arts.len()));
     }
     for a in &arts {
         let Some(orig_logical) = (a.accept)(&a.bytes) else {
@@ -702,7 +785,7 @@ pub fn run(tier: Tier, seed: u64) -> i32 {
     let rep = Report::new("C07", tier, seed, Level::FaultEnumeration);
     rep.set_rule("artifact part: per artifact every single-bit flip and every byte substitution (all 255 values for small artifacts, boundary values otherwise), every suffix deletion, 1-byte infix deletion and 1-byte insertion (00/FF) at every position (grid for regions > 512 bytes in quick) inside the protected region; cache part: every history ≤ depth d over put_validated / mismatching put / get_validated / corrupt-backing-file ops / reopen on ContentAddressedCache<DiskCache>; every mutant differs from the original, so distinct_nontrivial = cases");
     rep.assume("accept(mutant) ⇒ logical(mutant) = logical(original); a mutation that the parser normalises away without changing the value is not a violation; a panic is treated as 'not accepted' here (C02 judges panics)");
-    rep.assume("protected regions: encoding pages (MD5 in the page index), archive-index footer fields + footer hash, whole LRU file, update-entry bytes 0..23 (guard + hashed range), local header 30 bytes, V1 MIME message before the Checksum line");
+    rep.assume("protected regions: encoding pages (MD5 in the page index), archive-index footer fields + footer hash, whole LRU file, update-entry bytes 0..23 (guard + hashed range), .idx guarded blocks: stored Jenkins hash + 16-byte header block, stored Jenkins hash + sorted entry block (the block_size words are outside the hashes), local header 30 bytes, V1 MIME message before the Checksum line");
     run_artifacts(&rep, tier);
     let st = explore(&CacheSubject, &SeqBounds::depth(tier.pick(4, 5)).with_budget(tier.pick(30, 600)), &rep);
     rep.extra("cache_part", json!({"depth_completed": st.completed_depth, "histories": st.histories, "violating": st.violations}));
